@@ -222,13 +222,17 @@ rule("C19.n", "a window is half open wherever its end meets a time point: a comp
               "end of a window is `point < end` (inside) or `point >= end` (outside) - also in a shortcut that decides 'the window covers the "
               "whole grid' from the last point. `end >= last point` takes the closed interval: a window that ends exactly on the last point "
               "gets that point too", floor=0, props=["C19", "C14", "C08"])
+rule("C19.o", "already-gridded prices pass through unchanged: a price table with a numeric (positional) index is mapped onto the grid's time "
+              "points row by row, in the caller's order - between taking the copy and `index = self.timepoints` nothing re-orders, "
+              "aggregates or drops rows (groupby / sort / drop_duplicates / resample ... sort by label: a table whose labels are not "
+              "increasing would be permuted before the positional mapping)", floor=1)
 rule("C02.i", "interval data brought to the grid keeps its gaps: a step that lies in no interval is undefined (NaN) until the documented "
               "default fills it (vec[isnan(vec)] = default_value) - no other gap filler (ffill / bfill / interpolate / nan_to_num / fillna with "
               "another value) runs on the result of values_to_grid: a spread, cost or capacity given for an interval must not be carried "
               "beyond its end", floor=1, props=["C02", "C19"])
 
 
-@analysis("intervals", ["C19.a", "C19.b", "C19.c", "C19.e", "C19.g", "C15.g", "C20.h", "C11.i", "C19.h", "C20.i", "C15.h", "C19.i", "C19.j", "C19.k", "C14.i", "C19.m", "C02.i", "C19.n"])
+@analysis("intervals", ["C19.a", "C19.b", "C19.c", "C19.e", "C19.g", "C15.g", "C20.h", "C11.i", "C19.h", "C20.i", "C15.h", "C19.i", "C19.j", "C19.k", "C14.i", "C19.m", "C02.i", "C19.n", "C19.o"])
 def run(ctx):
     p = ctx.p
     zc = _zone_cases(ctx)
@@ -469,8 +473,18 @@ def run(ctx):
     # ---- C19.i: the boundaries of the coarse intervals span [start, end) - whichever way the intervals are cut out of them
     coarse = [st for st in au.walk_stmts(init.body) if isinstance(st, ast.Assign) and isinstance(st.targets[0], ast.Name)
               and isinstance(st.value, ast.Call) and au.method_name(st.value) == "date_range"
-              and au.U(au.kwarg(st.value, "start") or ast.Constant(None)) == "self.start"
+              and au.kwarg(st.value, "start") is not None
               and au.U(au.kwarg(st.value, "freq") or ast.Constant(None)) != "self.freq"]
+    for rng in coarse:
+        # the coarse steps are the asset's own: counted from the start of its window, wherever the horizon begins
+        sk, ek = au.kwarg(rng.value, "start"), au.kwarg(rng.value, "end")
+        dep = [x for k0 in (sk, ek) if k0 is not None for x in au.walk_local(k0) if isinstance(x, ast.Name) and x.id == ref]
+        ctx.ob("C19.i", init, "coarse boundaries are counted from the window start", au.U(sk) == "self.start" if not dep else False,
+               "the boundaries of the coarse intervals are generated from %s .. %s, which depends on the reference grid: the coarse steps of an asset "
+               "(gas days from 06:00, its own '4h' blocks) then begin at the horizon start instead of the asset's start whenever the asset starts "
+               "before the horizon - the rate is constant over other intervals than the asset's own, the optimum differs from the fine problem "
+               "with the asset's equalities (553.7 vs 712.6)" % (au.short(sk, 40), au.short(ek, 40)), node=rng,
+               key="coarse boundaries are counted from the window start")
     if not coarse:
         ctx.ob("C19.i", init, "coarse boundaries span the window", None, "date_range(start=self.start, ..., freq=<coarse freq>) not found")
     for rng in coarse:
@@ -633,3 +647,37 @@ def run(ctx):
                        au.short(bad[1], 50) if bad else "", p.where(bad[0]) if bad else ""), node=(bad[1] if bad else x0),
                    ok_detail="no gap filler on the way to the default / to the consumer")
     ctx.require(n_i >= 1, "no call of values_to_grid found in the package", rules=["C02.i"])
+
+
+    # ================================================================= C19.o positional pass-through of gridded prices
+    ptg = tg.methods.get("prices_to_grid")
+    if ptg is None:
+        ctx.ob("C19.o", "Timegrid", "prices_to_grid", None, "Timegrid.prices_to_grid not found")
+    else:
+        REORDER = ("groupby", "sort_index", "sort_values", "drop_duplicates", "resample", "unstack", "pivot", "pivot_table", "sample", "nlargest",
+                   "nsmallest", "dropna", "reindex", "sort", "unique", "T", "transpose", "iloc", "reset_index", "set_index")
+        pos = [st for st in au.walk_stmts(ptg.body) if isinstance(st, ast.Assign) and any(
+            isinstance(t0, ast.Attribute) and t0.attr == "index" for t0 in st.targets) and any(
+            isinstance(x, ast.Attribute) and x.attr == "timepoints" for x in au.walk_local(st.value))]
+        if not pos:
+            ctx.ob("C19.o", ptg, "positional mapping onto the time points", None, "`<prices>.index = self.timepoints` not found")
+        for st in pos:
+            frame = au.base_name(st.targets[0])
+            bad = None
+            for s2 in au.walk_stmts(ptg.body):
+                if s2.lineno >= st.lineno:
+                    continue
+                if isinstance(s2, ast.Assign) and any(isinstance(t0, ast.Name) and t0.id == frame for t0 in s2.targets):
+                    calls = [x for x in au.walk_local(s2.value) if (isinstance(x, ast.Call) and au.method_name(x) in REORDER and isinstance(x.func, ast.Attribute)
+                                                                     and frame in au.names_in(x.func.value))
+                             or (isinstance(x, ast.Attribute) and x.attr in ("T", "iloc") and au.base_name(x) == frame)]
+                    if calls:
+                        bad = (s2, calls[0])
+                elif isinstance(s2, ast.Expr) and isinstance(s2.value, ast.Call) and au.method_name(s2.value) in REORDER and au.base_name(s2.value.func) == frame \
+                        and any(k.arg == "inplace" and isinstance(k.value, ast.Constant) and k.value.value is True for k in s2.value.keywords):
+                    bad = (s2, s2.value)
+            ctx.ob("C19.o", ptg, "rows keep the caller's order up to %s" % au.short(st, 50), bad is None,
+                   "before the numeric index is replaced by the time points position by position, the table passes through %s (%s), which orders the rows "
+                   "by label (or drops / merges rows): an already-gridded table whose numeric labels are not increasing - a frame sorted by another "
+                   "column, a countdown index - comes back permuted (47 of 48 steps differ), silently" % (
+                       au.short(bad[1], 50) if bad else "", p.where(bad[0]) if bad else ""), node=(bad[0] if bad else st))
